@@ -159,6 +159,9 @@ class IndexSumSimplifier(DAGTraverser):
             for f1, f2 in ((with_k[0], with_k[1]), (with_k[1], with_k[0])):
                 if isinstance(f1, Indexed) and isinstance(f2, IndexSum):
                     summand, (j,) = f2.ufl_operands
+                    if j.count() in f1.ufl_free_indices:
+                        # Moving f1 under the sum over j would capture its free index j
+                        continue
                     inner = self._cancel(_flatten_product(summand, [f1]), k)
                     if inner is not None:
                         return _make_product(rest + [self._index_sum(inner, j)])
